@@ -5,6 +5,7 @@ use crate::util::Stats;
 use std::io::Write;
 
 pub mod url;
+pub mod noderender;
 pub mod entity;
 pub mod codepair;
 pub mod link;
@@ -50,6 +51,7 @@ pub type StreamFn = fn(n: usize, rng: &mut Rng, out: &mut Out);
 pub fn streams() -> Vec<(&'static str, StreamFn)> {
     vec![
         ("url", url::run as StreamFn),
+        ("noderender", noderender::run as StreamFn),
         ("entity", entity::run as StreamFn),
         ("codepair", codepair::run as StreamFn),
         ("link", link::run as StreamFn),
